@@ -971,6 +971,78 @@ def tie_state(rep, m, tier, r):
     return nbad
 
 
+def fork_program(P, A, B):
+    """P; if (calldata word 0 != 0) { log 2; B } else { log 1; A }   -- a symbolic fork between
+    state cheatcodes: what one side sets must never be read by the other"""
+    head = state_program(P)[:-1] + push(0) + op("CALLDATALOAD")
+    side_a = push(1, 32) + LOGTOP + state_program(A)          # ends with STOP
+    target = len(head) + 3 + 1 + len(side_a)
+    code = head + bytes([0x61]) + target.to_bytes(2, "big") + op("JUMPI") + side_a
+    assert len(code) == target
+    return code + op("JUMPDEST") + push(2, 32) + LOGTOP + state_program(B)
+
+
+def _reads_of(items, init_block):
+    """the values the program logs (cheat calls themselves log nothing)"""
+    full = state_spec(items, [0, 0, 0, 0], init_block)
+    out, j = [], 0
+    for it in items:
+        if it[0] == "load":
+            out.append(full[j + 1])
+            j += 2
+        elif it[0].islower():
+            j += 1
+        else:
+            out.append(full[j])
+            j += 1
+    return out
+
+
+def tie_state_fork(rep, m, tier, r):
+    """isolation of the state cheatcodes between sibling paths: after a symbolic fork each
+    path must read exactly what was supplied on ITS path"""
+    from halmos.__main__ import mk_block
+    from halmos.sevm import EventLog
+
+    b = mk_block()
+    init_block = [as_int(b.basefee), as_int(b.chainid), as_int(b.coinbase), as_int(b.difficulty), as_int(b.number), as_int(b.timestamp)]
+    reads = [("TIMESTAMP",), ("NUMBER",), ("BASEFEE",), ("CHAINID",), ("COINBASE",), ("DIFFICULTY",)]
+    cases = [
+        ([("warp", 100), ("roll", 7), ("chainId", 5)], [("warp", 300), ("roll", 9), ("chainId", 11), ("TIMESTAMP",)], [("TIMESTAMP",), ("NUMBER",), ("CHAINID",)]),
+        ([("fee", 3)], [("BASEFEE",), ("fee", 4), ("BASEFEE",)], [("fee", 8), ("coinbase", 0xB0B), ("BASEFEE",), ("COINBASE",)]),
+        ([("store", THIS, 1, 5)], [("store", THIS, 1, 6), ("SLOAD", 1)], [("SLOAD", 1), ("deal", 0xB0B, 9), ("BALANCE", 0xB0B)]),
+    ]
+
+    def gen_side():
+        return [(r.choice(list(BLOCK_CHEATS)), r.choice([0, 1, 5, 2 ** 64, r.getrandbits(64)])) for _ in range(r.randrange(1, 4))]
+
+    for _ in range(30 if tier == "quick" else 400):
+        cases.append((gen_side(), gen_side() + r.sample(reads, 3), r.sample(reads, 3) + gen_side() + r.sample(reads, 2)))
+    nbad = 0
+    for P, A, B in cases:
+        rep.case({"fork_state_case": [P, A, B]}, nontrivial=True)
+        code = fork_program(P, A, B)
+        exs = run_program({THIS: code, 0xB0B: op("STOP")}, symbolic_calldata=4)
+        np_ = len(_reads_of(P, init_block))
+        seen = set()
+        for ex in exs:
+            logs = [as_int(t.data) for t in ex.context.trace if isinstance(t, EventLog)]
+            side = logs[np_] if len(logs) > np_ else None
+            if side not in (1, 2):
+                continue
+            seen.add(side)
+            want = _reads_of(P, init_block) + [side] + _reads_of(P + (A if side == 1 else B), init_block)[np_:]
+            if logs != want:
+                nbad += 1
+                if nbad <= 5:
+                    rep.fail("failing-input", f"state cheatcodes leak between sibling paths: prefix {P}, fall-through side {A}, jump side {B}: side {side} read {logs}, supplied on this path: {want}",
+                             case={"fork_state_case": [P, A, B], "side": side, "implementation": logs, "spec": want}, sig={"defect": "state_cheatcode_sibling_leak"})
+        if seen != {1, 2}:
+            rep.fail("broken-tie", f"fork state program did not yield both sides: {seen}", case={"fork_state_case": [P, A, B]})
+    rep.count("tie", "L2b fork state programs", len(cases))
+    return nbad
+
+
 # ================================================================== L1c creators
 
 def _enc_str(s):
@@ -1356,7 +1428,7 @@ def run(rep, tier):
     import time
 
     timing = {}
-    for name, fn in (("L1_prank_object", tie_prank_obj), ("L2a_prank_programs", tie_prank_sevm), ("L2b_state", tie_state), ("L1c_creators", tie_creators)):
+    for name, fn in (("L1_prank_object", tie_prank_obj), ("L2a_prank_programs", tie_prank_sevm), ("L2b_state", tie_state), ("L2b_state_fork", tie_state_fork), ("L1c_creators", tie_creators)):
         t0 = time.time()
         try:
             fn(rep, m, tier, r)
